@@ -100,9 +100,9 @@ class C13(Sim):
     RULE = ("one run = one surface / tet mesh / polyline; optional cache warm-up; 1-2 editing blocks of 1-4 seeded operations; observers on the result "
             "and on the object passed in; distinct = distinct (mesh kind+class, warm/cold, operation sequence); non-trivial = >= 1 block closed (or one "
             "polyline split) and >= 1 observation")
-    FAULT_KINDS = ["warm"]
+    FAULT_KINDS = ["warm", "reject"]
     PROBES = ["polygon_input", "quad_input", "closed_surface", "bordered_surface", "multi_op_block", "second_block", "area_checked", "centre_checked",
-              "input_observed", "result_observed", "volume_block", "polyline_split", "face_centre_split_interior", "sdbet"]
+              "input_observed", "result_observed", "volume_block", "polyline_split", "face_centre_split_interior", "sdbet", "int_coordinates", "exception_leaves_block"]
     QUICK_RUNS = 2500
     THOROUGH_RUNS = 250000
     BLOCK = 20
@@ -130,6 +130,12 @@ class C13(Sim):
                 p, f = surfgen.grid(2, 2, "quad", wr)
             flat = all(len(x) == 3 for x in f)
             w["points"] = [[round(x, 5) for x in q] for q in p]
+            if rng.chance(0.15):
+                # integer coordinates (a hand-typed lattice): midpoints and centres are not integers
+                p, f = surfgen.grid(rng.randint(1, 3), rng.randint(1, 3), "tri" if tri else rng.choice(["quad", "mixed"]), wr)
+                w["points"] = [[int(round(x)) * 3 + (1 if (i % 2) else 0) for x in q[:2]] + [0] for i, q in enumerate(p)]
+                w["int_coords"] = True
+                flat = True
             if not flat:
                 # planar faces wherever the base embedding had them: undo the generator's jitter by rounding to the lattice where possible
                 w["points"] = [[round(x, 1) if abs(x - round(x, 1)) < 0.03 else round(x, 5) for x in q] for q in p]
@@ -157,6 +163,8 @@ class C13(Sim):
         w = cfg["world"]
         d = RawMeshData()
         d.vertices += [list(p) for p in w["points"]]
+        if w.get("int_coords"):
+            self.probes["int_coordinates"] += 1
         if w["kind"] == "surface":
             d.faces += [list(f) for f in w["faces"]]
             self.cur = M.mesh.SurfaceMesh(d)
@@ -208,6 +216,11 @@ class C13(Sim):
         if self.editor is not None:
             if self.block["nops"] >= cfg["max_ops"] or (self.block["nops"] >= 1 and r.chance(0.3)):
                 return {"c": "editor", "op": "close"}
+            if cfg["faults_on"] and r.chance(0.12):
+                # fault 'reject': an operation called with an element index that does not exist raises inside the block, and the
+                # exception leaves the block (Python hands it to __exit__)
+                name = r.choice(["triangulate_face", "split_face_as_fan"] if self.kind == "surface" else ["cell_fan", "face_center"])
+                return {"c": "editor", "op": "sop_bad", "name": name, "past_end": r.choice([0, 1, 7])}
             return self._prop_sop(r)
         # no block open
         choices = ["open", "open"]
@@ -252,6 +265,8 @@ class C13(Sim):
         op = ev["op"]
         if self.kind == "polyline":
             return op in ("split_edge", "observe_polyline") and (op != "split_edge" or ev["e"] < len(self.cur.edges))
+        if op == "sop_bad":
+            return self.editor is not None and (ev["name"] in ("cell_fan", "face_center")) == (self.kind == "tets")
         if op in ("sop", "close"):
             if self.editor is None:
                 return False
@@ -409,6 +424,8 @@ class C13(Sim):
             return self._sop(ev)
         if op == "close":
             return self._close()
+        if op == "sop_bad":
+            return self._sop_bad(ev)
         if op == "sdbet":
             return self._sdbet()
         if op == "observe_result":
@@ -482,6 +499,33 @@ class C13(Sim):
         if not same_points([P2[-1]], [ctr], sc):
             self.violation("new-vertex-at-centre", name, "wrong_value", "vertices", ac, "%s: new vertex %r, expected the centre %r" % (name, P2[-1], ctr))
         return "ok"
+
+    # ---- a failing operation: the exception leaves the block
+    def _sop_bad(self, ev):
+        ed = self.editor
+        raw = ed.mesh
+        name = ev["name"]
+        n = len(raw.cells) if name == "cell_fan" else len(raw.faces)
+        idx = n + ev["past_end"]
+        fn = {"triangulate_face": lambda: ed.triangulate_face(idx), "split_face_as_fan": lambda: ed.split_face_as_fan(idx),
+              "cell_fan": lambda: ed.split_cell_as_fan(idx), "face_center": lambda: ed.split_tet_from_face_center(idx)}[name]
+        o = call(fn)
+        if o.ok:
+            return "accepted"  # the library chose to ignore the call: the block simply goes on
+        self.faults["reject"] += 1
+        self.probes["exception_leaves_block"] += 1
+        self.editor = None
+        self.opseq.append(name + "!raise")
+        o2 = call(ed.__exit__, type(o.exc), o.exc, o.exc.__traceback__)
+        # whatever __exit__ does with the exception, the object that was passed in must not be left half-updated: it is a consistent
+        # mesh (its corner records and connectivity answers describe its own element lists), unchanged or refined
+        self.cur = self.input_obj
+        self.result_snap = self._snap(self.input_obj)
+        self.input_snap = self.result_snap
+        self.nblocks += 1
+        self.warmed = False
+        self._query(self.input_obj, h64(self.cfg["seed"], "bad", self.nblocks) & 0xFFFFFF, 8, "input-never-half-updated", "input-after-failed-block")
+        return "raised:" + type(o.exc).__name__
 
     # ---- closing a block: whole-result invariants
     def _close(self):
